@@ -496,6 +496,16 @@ def fam_conn(tier, seed):
         steps = [{"at": 0, "do": "start", "i": "A"}, {"at": t1, "do": "disc", "i": "A"}, {"at": t1 + 200 * MS, "do": "out_put", "cls": "as:B"},
                  {"at": t1 + rng.choice([1000, 1500, 2000]) * MS, "do": "reconn", "i": "A"}]
         out.append(scn("conn-reconnect-as-follower-%d" % k, seed * 1000 + 985 + k, H, 5.0, insts, steps, "conn", t1 + 3 * grace + 2 * S, lat=20 * MS, watch=30 * MS))
+    # a reconnect verification that succeeds after a newer disconnect notification: the grace period of that disconnect still counts
+    for k in range(3 if tier == "quick" else 18):
+        H = rng.choice([500 * MS, 1 * S])
+        t0 = int((1.3 + rng.random()) * H)
+        insts = [inst("A", conn=True, grace_us=2 * H)]
+        steps = [{"at": 0, "do": "start", "i": "A"}, {"at": t0, "do": "disc", "i": "A"}, {"at": t0 + 50 * MS, "do": "reconn", "i": "A"},
+                 {"when": {"i": "A", "kind": "get", "src": ["verify", "validate"][k % 2], "nth": 1 if k % 2 == 0 else 0, "phase": rng.choice(["pre", "post"])},
+                  "do": "disc", "i": "A", "then": [{"do": "sleep", "us": rng.choice([50, 200]) * MS}]}]
+        out.append(scn("conn-verification-succeeds-after-newer-disconnect-%d" % k, seed * 1000 + 960 + k, H, 5.0, insts, steps, "conn",
+                       t0 + 6 * H + 3 * S, lat=int(H * 0.04)))
     # a failed reconnect verification standing right before its demotion while the term is ended by another path (stop call or
     # the heartbeat): one demotion callback (scheduler gate at the handler's log line)
     for k in range(4 if tier == "quick" else 24):
@@ -800,6 +810,13 @@ def fam_regress(tier, seed):
                        [inst("A", gate_log="acquire_success", gate_free=True), inst("B")], [
             {"at": 0, "do": "start", "i": "A"}, {"at": 100 * MS, "do": "stop", "i": "A"}, {"at": 200 * MS, "do": "release_gate", "i": "A"},
             {"at": 300 * MS, "do": "start", "i": "B"}], "regress", 9 * H + 2 * S, lat=20 * MS, watch=30 * MS))
+        # 25. StopWithContext{DeleteKey} with a short time-out while the store does not answer: it returns within its time-out
+        for mode in ("hang", "timeout"):
+            out.append(scn("reg-stop-delete-store-unreachable-%s-%d" % (mode, k), seed * 1000 + k, H, ratio, [inst("A"), inst("B")], [
+                {"at": 0, "do": "start", "i": "A"}, {"at": H // 4, "do": "start", "i": "B"},
+                {"at": int(2.3 * H), "do": "partition", "i": "A", "mode": mode},
+                {"at": int(2.3 * H) + 50 * MS, "do": "stopctx", "i": "A", "del": True, "timeout_us": rng.choice([300, 600]) * MS},
+                {"at": int(2.3 * H) + 4 * S, "do": "heal", "i": "A"}], "regress", 8 * H + 6 * S, lat=20 * MS, watch=30 * MS, part_timeout_us=3 * S))
         # 19. a heartbeat tick held by a hanging health check while the leader is preempted and, as a follower, observes its
         #     successor's next refresh: when the check returns the tick must not go on to the Update
         out.append(scn("reg-hanging-check-across-preemption-%d" % k, seed * 1000 + k, H1, 5.0,
